@@ -98,6 +98,33 @@ Theorem signed_rr_reads_back_validated :
 Proof. exact signed_rr_reads_back_validated_lemma. Qed.
 Print Assumptions signed_rr_reads_back_validated.
 
+(* ... and the whole read: if the part of the signed message before the TSIG RR parses (questions,
+   ANSWER, AUTHORITY, the ADDITIONAL records before the TSIG, ending where the TSIG RR starts),
+   dns.message.from_wire returns it validated, with the signer's follow-up context *)
+Theorem read_signed_message :
+  forall H wire k rd now rmac ctx multi out rd' c' now2 fl qd an au ad p s1 s2 s3,
+    sign_message H wire k (kname k) rd now rmac ctx multi = Ok (out, rd', c') ->
+    Valid (kname k) -> Valid (t_alg rd) ->
+    all_bytes wire = true -> (12 <= length wire)%nat ->
+    t_error rd = 0 -> NameM.name_eqb (kalg k) (t_alg rd) = true ->
+    rfc_time_ok now2 now (t_fudge rd) ->
+    get_uint out (length out) 2 2 = Ok fl -> get_uint out (length out) 4 2 = Ok qd ->
+    get_uint out (length out) 6 2 = Ok an -> get_uint out (length out) 8 2 = Ok au ->
+    get_uint out (length out) 10 2 = Ok ad ->
+    ((fst fl / 2048) mod 16 =? 5) = false ->
+    get_question out (Z.to_nat (fst qd)) 12 = Ok p ->
+    get_section H out (KR_Key k) rmac now2 multi 1 (fst an) (Z.to_nat (fst an))
+      {| r_pos := p; r_tsig := None; r_ctx := ctx; r_recs := [] |} = Ok s1 ->
+    get_section H out (KR_Key k) rmac now2 multi 2 (fst au) (Z.to_nat (fst au)) s1 = Ok s2 ->
+    1 <= fst ad ->
+    get_section_n H out (KR_Key k) rmac now2 multi 3 (fst ad) 0 (Z.to_nat (fst ad - 1)) s2 = Ok s3 ->
+    r_pos s3 = length wire ->
+    read H out (KR_Key k) rmac ctx multi now2
+    = Ok {| m_had_tsig := true; m_tsig := Some (kname k, rd'); m_ctx := c';
+            m_recs := rev ((3, TSIG, ANY, length wire) :: r_recs s3) |}.
+Proof. exact read_signed_message_lemma. Qed.
+Print Assumptions read_signed_message.
+
 (* ---- what validate accepts ---- *)
 Theorem validate_accepts_iff :
   forall H wire k owner rd now rmac start ctx multi r,
@@ -430,3 +457,25 @@ Example ex_algorithm_table :
     (nHMAC_SHA384_192, SHA384, Some 24%nat); (nHMAC_SHA512, SHA512, None);
     (nHMAC_SHA512_256, SHA512, Some 32%nat); (nHMAC_MD5, MD5, None) ].
 Proof. reflexivity. Qed.
+
+(* a message with a question and an ADDITIONAL record, signed and read back (the hypotheses of
+   read_signed_message hold for it) *)
+Definition exwire2 : bytes :=
+  [18; 52; 1; 0; 0; 1; 0; 0; 0; 0; 0; 1] ++ [1; 97; 0; 0; 1; 0; 1]
+  ++ [1; 98; 0; 255; 0; 0; 1; 0; 0; 0; 0; 0; 2; 120; 121].
+Definition ex_signed2 : bytes :=
+  Eval vm_compute in
+    match sign_message exH exwire2 exkey (kname exkey) exrd 1000 [] None false with
+    | Ok (w, _, _) => w | _ => [] end.
+Example ex_read_signed :
+  (exists rd', sign_message exH exwire2 exkey (kname exkey) exrd 1000 [] None false = Ok (ex_signed2, rd', None))
+  /\ (exists m, read exH ex_signed2 (KR_Key exkey) [] None false 1200 = Ok m /\ m_had_tsig m = true
+                /\ length (m_recs m) = 2%nat)
+  /\ (exists s3, get_section_n exH ex_signed2 (KR_Key exkey) [] 1200 false 3 2 0 1
+                   {| r_pos := 19; r_tsig := None; r_ctx := None; r_recs := [] |} = Ok s3
+                 /\ r_pos s3 = length exwire2).
+Proof.
+  split; [eexists; vm_compute; reflexivity|].
+  split; [eexists; split; [vm_compute; reflexivity|split; reflexivity]|].
+  eexists; split; [vm_compute; reflexivity|reflexivity].
+Qed.
